@@ -27,7 +27,8 @@ def run(pid, tier, seed):
     t0 = time.time()
     v = vlib.Verdict(pid)
     mcs = [vlib.mc_or_die("MC_Lifecycle", "MC_Lifecycle_small.cfg", workers=12, timeout=900),
-           vlib.mc_or_die("MC_Lifecycle", "MC_Lifecycle_self.cfg", workers=12, timeout=900)]
+           vlib.mc_or_die("MC_Lifecycle", "MC_Lifecycle_self.cfg", workers=12, timeout=900),
+           vlib.mc_or_die("MC_Lifecycle", "MC_Lifecycle_kids.cfg", workers=12, timeout=900)]
     if tier == "thorough":
         mcs.append(vlib.mc_or_die("MC_Lifecycle", "MC_Lifecycle_local.cfg", workers=14, timeout=3000))
         mcs.append(vlib.mc_or_die("MC_Lifecycle", "MC_Lifecycle_tree.cfg", workers=14, timeout=3000))
